@@ -264,6 +264,47 @@ def generate(flex, workdir):
     return '\n'.join(L) + '\n', {'messages': msgs, 'left_out': sorted(set(tr.left_out))}
 
 
+PROBE_C99 = '%option emit="c99" noyywrap\n%%\na ;\n%%\n'
+
+
+def generate_c99(flex, workdir):
+    lf = os.path.join(workdir, 'bufstack_probe99.l')
+    cf = os.path.join(workdir, 'bufstack_probe99.c')
+    open(lf, 'w').write(PROBE_C99)
+    p = subprocess.run([flex, '-L', '-o', cf, lf], stdout=subprocess.PIPE, stderr=subprocess.PIPE, text=True)
+    if p.returncode != 0:
+        raise TranslateError('flex failed on the c99 probe: ' + p.stderr[-200:])
+    text = G.normalise_c99(open(cf, errors='replace').read())
+    text = re.sub(r'\\\s*\n', ' ', text)
+    macros = {'yy_current_buffer': ([], G.function_as_macro(text, 'yy_current_buffer')[1])}
+    # the default skeleton spells the top slot YY_CURRENT_BUFFER_LVALUE; the c99 one writes it out
+    msgs = []
+    funcs = {'yyensure_buffer_stack': P(tokenize(body_of(text, 'yyensure_buffer_stack'))).stmt()}
+    tr = Tr(macros, {'true': 1, 'false': 0}, msgs, funcs)
+    progs = {}
+    for fn in ('yyensure_buffer_stack', 'yypush_buffer_state', 'yypop_buffer_state', 'yy_switch_to_buffer'):
+        progs[fn] = tr.st(P(tokenize(body_of(text, fn))).stmt())
+    _, cur, _ = tr.ex(('call', 'yy_current_buffer', []))
+    q = lambda s: '"' + s.replace('\\', '\\\\').replace('"', '\\"') + '"'
+    L = ['-- GENERATED by tools/fv/gen_bufstack.py from a c99 scanner (%option emit="c99") flex has just generated.  Do not edit.',
+         'import FlexVerif.Imp.Lang',
+         'namespace FlexVerif.Gen.BufStackC99',
+         'open FlexVerif.Imp',
+         'def msgs : List String := [%s]' % ', '.join(q(m) for m in msgs),
+         'def ensure : St :=\n  ' + progs['yyensure_buffer_stack'],
+         'def push : St :=\n  ' + progs['yypush_buffer_state'],
+         'def pop : St :=\n  ' + progs['yypop_buffer_state'],
+         'def switch_ : St :=\n  ' + progs['yy_switch_to_buffer'],
+         'def currentEx : Ex :=\n  ' + cur,
+         'end FlexVerif.Gen.BufStackC99']
+    for f in (lf, cf):
+        try:
+            os.unlink(f)
+        except OSError:
+            pass
+    return '\n'.join(L) + '\n', {'messages': msgs, 'left_out': sorted(set(tr.left_out))}
+
+
 if __name__ == '__main__':
     import sys
     t, info = generate(sys.argv[1], sys.argv[2])
